@@ -83,6 +83,10 @@ def run(c, index, tier):
     w = None
     if ch.boolean("w", 0.4, "weights"):
         w = numpy.round(rs.rand(n) + 0.5, 4) + numpy.arange(n) * 1e-4  # distinct weights
+        if n >= 3 and ch.boolean("w", 0.3, "zero-weights"):
+            # null weights are valid sample weights: such rows stay eligible
+            w[rs.permutation(n)[: max(1, n // 3)]] = 0.0
+            c.probe("some_weights_are_zero")
     alpha = _alpha(ch, n)
     n_est = ch.integer("w", 1, 8, "n_estimators")
     local_name = ch.choice("w", ["linreg", "tag", "dummy", "tree", "picky"], "local")
@@ -127,8 +131,10 @@ def run(c, index, tier):
     else:
         ok, r = U.sut(c, "fit", model.fit, X, y, sample_weight=w)
     c.nontrivial = bool(c.seam_calls)
-    if not ok and local_name == "picky" and "PickyLinReg" in str(r):
-        c.probe("base_estimator_rejected_a_resample")  # propagating the base estimator's refusal is legitimate
+    if not ok and ((local_name == "picky" and "PickyLinReg" in str(r)) or (w is not None and numpy.any(w == 0) and U.raised_inside_peer(r))):
+        # the base estimator refused a resample (constant target, only
+        # null-weight rows): propagating its refusal is legitimate
+        c.probe("base_estimator_rejected_a_resample")
         return
     if not ok:
         _viol(
@@ -214,6 +220,12 @@ def run(c, index, tier):
 
     # ---- (c) aggregation
     c.entropy = E.Entropy("pinned")
+    if ch.boolean("w", 0.3, "set-n_estimators-after-fit"):
+        # the hyper-parameter changes after fit (a grid search does this
+        # before refitting): the fitted models are still the ones that count
+        other = n_est + 1 + ch.draw("w", 5, "other-n_estimators") if ch.boolean("w", 0.5, "more") else max(1, n_est - 1 - ch.draw("w", 3, "fewer"))
+        U.sut(c, "set_params(n_estimators)", model.set_params, n_estimators=other)
+        c.probe("n_estimators_changed_after_fit")
     ok, pa = U.sut(c, "predict_all", model.predict_all, Xq)
     ok2, p = U.sut(c, "predict", model.predict, Xq)
     ok3, ps = U.sut(c, "predict_sorted", model.predict_sorted, Xq)
